@@ -1802,9 +1802,9 @@ class EventType(VersionedOntologyElement, MutableMapping):
                     (e[property_name] for e in events if e[property_name] != set()), set()
                 )
             else:
-                # Merge strategy 'any', should not matter which
-                # value to pick, we pick the first one.
-                output_properties[property_name] = event_properties[property_name][0]
+                # Merge strategies 'any' and 'match', should not matter which
+                # instance to pick, we pick the objects of the first one that has any.
+                output_properties[property_name] = next(e[property_name] for e in events if e[property_name] != set())
 
         return events[0].copy().set_properties(output_properties).set_parents(parents)
 
